@@ -3,6 +3,7 @@
 package props
 
 import (
+	"math/big"
 	"math"
 	"fmt"
 	"time"
@@ -305,6 +306,79 @@ func runC11(r *vk.Run) {
 		}
 	})
 	r.Require("overflowing_group_sums", 100)
+	// avg over groups whose SUM overflows although their MEAN is an ordinary number (three series of
+	// 1e308): the mean is what avg denotes; it is computed here with arbitrary precision
+	r.Phase("bigavg", r.N(300, 40000), func(c *vk.Case) {
+		rng := c.Rng
+		var recs []Rec
+		used := map[string]bool{}
+		for i := 0; i < rng.Range(3, 8); i++ {
+			l := map[string]string{"job": "j", "a": vk.Pick(rng, []string{"x", "y"}), "b": vk.Pick(rng, []string{"p", "q", "r", "s", "t"})}
+			if used[labelKey(l)] {
+				continue
+			}
+			used[labelKey(l)] = true
+			v := vk.Pick(rng, []string{"1e308", "9e307", "1.7e308", "8e307", "1e308", "5", "-1e308", "-9e307"})
+			recs = append(recs, Rec{TS: metricT0 + 5e8 + int64(rng.Intn(3000))*1e6, Line: "v=" + v, Labels: l})
+		}
+		sortRecs(recs)
+		env := &MEnv{Recs: recs, Msg: env0.Msg, UnwrapKeeps: env0.UnwrapKeeps, CmpFalse: env0.CmpFalse, CmpFalseBool: env0.CmpFalseBool}
+		leaf := c11Leaf()
+		byA := rng.Bool()
+		text := "avg(" + leaf.Text() + ")"
+		if byA {
+			text = "avg by (a) (" + leaf.Text() + ")"
+		}
+		T := metricT0 + 4e9
+		res, err := evalQuery(&MemQuerier{Recs: recs, ErrAfter: -1}, text, EvalP{Start: T, End: T})
+		c.Eval(1)
+		det := map[string]any{"query": text, "records": recs, "result": res}
+		if err != nil {
+			c.Fail("", "query failed: "+text+": "+err.Error(), det)
+			return
+		}
+		sums := map[string]*big.Float{}
+		counts := map[string]int{}
+		maxAbs := map[string]float64{}
+		for _, sv := range leaf.Eval(env, T).M {
+			g := ""
+			if byA {
+				g = sv.L["a"]
+			}
+			if sums[g] == nil {
+				sums[g] = new(big.Float).SetPrec(200)
+			}
+			sums[g].Add(sums[g], new(big.Float).SetPrec(200).SetFloat64(sv.V))
+			counts[g]++
+			if m := math.Abs(sv.V); m > maxAbs[g] {
+				maxAbs[g] = m
+			}
+		}
+		if len(res.Series) != len(sums) {
+			c.Fail("", fmt.Sprintf("%s: %d series, expected %d groups", text, len(res.Series), len(sums)), det)
+			return
+		}
+		for _, s := range res.Series {
+			g := s.Labels["a"]
+			if sums[g] == nil || len(s.Points) != 1 {
+				c.Fail("", fmt.Sprintf("%s: unexpected series %v", text, s.Labels), det)
+				return
+			}
+			want, _ := new(big.Float).Quo(sums[g], new(big.Float).SetInt64(int64(counts[g]))).Float64()
+			// members of opposite sign cancel: the error float64 arithmetic may leave is relative to the
+			// largest member, not to the (possibly tiny) mean
+			if got := s.Points[0].V; math.IsNaN(got) || math.IsInf(got, 0) || math.Abs(got-want) > 1e-9*maxAbs[g] {
+				c.Fail("", fmt.Sprintf("%s: group %q = %v, the mean of its %d members is %v", text, g, s.Points[0].V, counts[g], want), det)
+				return
+			}
+			if sf, _ := sums[g].Float64(); math.IsInf(sf, 0) {
+				c.Count("avg_groups_with_overflowing_sum", 1)
+				c.Nontrivial(fmt.Sprintf("bigavg|%d|%s", c.Idx, g))
+			}
+		}
+	})
+	r.Require("avg_groups_with_overflowing_sum", 50)
+
 	r.Require("distinct_nontrivial", 800)
 	r.Require("sort_orders_checked", 100)
 	r.Require("depth:3", 200)
